@@ -3,9 +3,8 @@
 // which Verus cannot take; the contracts below are ASSUMED, and are listed in every evidence file.
 
 pub open spec fn tracks_of_moov(moov: MoovBox, tracks: Map<u32, Mp4Track>) -> bool {
-    &&& forall|i: int| 0 <= i < moov.traks@.len() ==> tracks.dom().contains(#[trigger] moov.traks@[i].tkhd.track_id)
-    &&& forall|id: u32| #[trigger] tracks.dom().contains(id) ==> id != 0 && exists|i: int| 0 <= i < moov.traks@.len()
-            && moov.traks@[i].tkhd.track_id == id && tracks[id].trak == moov.traks@[i]
+    forall|id: u32| #[trigger] tracks.dom().contains(id) ==> id != 0 && exists|i: int| 0 <= i < moov.traks@.len()
+            && #[trigger] moov.traks@[i].tkhd.track_id == id && tracks[id].trak == moov.traks@[i]
             && tracks[id].trafs@.len() == 0 && tracks[id].moof_offsets@.len() == 0
 }
 
@@ -15,6 +14,7 @@ pub fn outlined_tracks_init(moov: &Option<MoovBox>) -> (r: Result<HashMap<u32, M
     ensures
         r matches Err(e) ==> !(e is IoError),
         r matches Ok(t) ==> (moov matches Some(m) ==> tracks_of_moov(*m, t@)),
+        r matches Ok(t) ==> (moov is None ==> t@.dom() == Set::<u32>::empty()),
 { unimplemented!() }
 
 /// reader.rs `self.moov.traks.iter().map(..).collect()` (read_fragment_header)
@@ -23,11 +23,16 @@ pub fn outlined_tracks_init_frag(moov: &MoovBox) -> (r: HashMap<u32, Mp4Track>)
     ensures tracks_of_moov(*moov, r@),
 { unimplemented!() }
 
-/// reader.rs `for (moof, moof_offset) in moofs.iter().zip(moof_offsets) { for traf in moof.trafs.iter() { .. } }`
+/// reader.rs `for (moof, moof_offset) in moofs.iter().zip(moof_offsets) { for traf in moof.trafs.iter() { .. } }`:
+/// every traf is cloned onto the track named by its tfhd together with the offset of its moof, in file order
 #[verifier::external_body]
 pub fn outlined_attach_fragments(tracks: &mut HashMap<u32, Mp4Track>, default_sample_duration: u32,
                                  moofs: &Vec<MoofBox>, moof_offsets: Vec<u64>) -> (r: Result<()>)
     ensures
         r matches Err(e) ==> !(e is IoError),
         final(tracks)@.dom() == old(tracks)@.dom(),
+        forall|id: u32| #[trigger] final(tracks)@.dom().contains(id) ==> final(tracks)@[id].trak == old(tracks)@[id].trak
+            && (old(tracks)@[id].trafs@.len() == old(tracks)@[id].moof_offsets@.len()
+                    ==> final(tracks)@[id].trafs@.len() == final(tracks)@[id].moof_offsets@.len())
+            && (moofs_parsed(moofs@) && trafs_parsed(old(tracks)@[id].trafs@) ==> trafs_parsed(final(tracks)@[id].trafs@)),
 { unimplemented!() }
